@@ -2511,7 +2511,7 @@ def check(ctx):
                 'rejected powers, all five solvers + base class, every init mode, 4..30 ops incl. getter reads; '
                 'formula systems and solve/monotone cases drawn the same way; non-trivial = distinct history with '
                 '>= 3 ops / distinct (formula, system) / distinct oracle case')
-    core.prove(ctx, MODULE, drivers=[DRIVER], scratch=ctx.scratch)
+    core.prove(ctx, MODULE, generated=['C10Effects'], drivers=[DRIVER], scratch=ctx.scratch)
     ctx.required_branches = ['op:setP', 'op:rand', 'op:setprec', 'op:setfilt', 'op:solve', 'op:clear', 'op:rFWH',
                              'op:rFW', 'op:rFF', 'op:setinit', 'out:err:ValueError', 'out:err:RuntimeError',
                              'out:err:TypeError', 'op:query', 'op:fork'] + [
